@@ -91,39 +91,104 @@ def _defs(fn):
     return {unparse(s.targets[0]): s for s in walk_local(fn.node) if isinstance(s, ast.Assign) and len(s.targets) == 1}
 
 
+def _attr_stores(prog, q):
+    """abstract evaluation of a method: [(attribute text, rendered value, value, path, stmt)] in program order"""
+    from .. import symexec as SX
+
+    f = prog.fn(q)
+    ex = SX.SymExec().run(f.body)
+    return f, [(e[1][0], SX.render(e[1][1]), e[1][1], e[2], e[1][2]) for e in ex.effects if e[0] == "setattr"]
+
+
+def _leaves(v):
+    from .. import symexec as SX
+    if isinstance(v, SX.Ite):
+        return _leaves(v.a) + _leaves(v.b)
+    return [SX.render(v)]
+
+
 def r4_2(prog, rep):
+    """values, levels and contrast of a categorical term come from ONE categorical object; decided on the abstract values that
+    are stored into self.levels / self.contrast_matrix / self.value (temporaries and statement order do not matter)"""
     for q in ("terms.variable.Variable.eval_categoric", "terms.call.Call.eval_categoric"):
-        f = prog.fn(q)
-        c = cfg_of(f)
-        x = f.params[1]
-        lv = [s for s in walk_local(f.node) if isinstance(s, ast.Assign) and is_self_attr(s.targets[0], "levels")]
-        ok = len(lv) == 1 and unparse(lv[0].value) == f"{x}.categories.tolist()"
-        obl(rep, f, lv[0] if lv else f.node, "R4.2", ok, "self.levels are the categories of the categorical that is coded", unparse(lv[0].value) if lv else "")
-        codes = [n for n in ast.walk(f.node) if isinstance(n, ast.Subscript) and unparse(n.value) == "self.contrast_matrix.matrix"]
-        ok = len(codes) == 1 and unparse(codes[0].slice) == f"{x}.codes"
-        obl(rep, f, codes[0] if codes else f.node, "R4.2", ok, "rows of the contrast matrix are selected by the codes of that same categorical",
-            unparse(codes[0].slice) if codes else "", "the contrast matrix is indexed by codes of another object than the one whose categories were coded")
-        if lv and codes:
-            # no re-binding of x between reading the categories and reading the codes
-            between = [s for s in walk_local(f.node) if isinstance(s, ast.Assign) and unparse(s.targets[0]) == x and lv[0].lineno < s.lineno <= codes[0].lineno]
-            obl(rep, f, lv[0], "R4.2", not between, f"`{x}` is not re-bound between `.categories` and `.codes`")
-        cm = [s for s in walk_local(f.node) if isinstance(s, ast.Assign) and is_self_attr(s.targets[0], "contrast_matrix")]
-        ok = len(cm) == 2 and sorted(unparse(s.value) for s in cm) == ["treatment.code_with_intercept(self.levels)", "treatment.code_without_intercept(self.levels)"]
-        obl(rep, f, cm[0] if cm else f.node, "R4.2", ok, "the contrast matrix is built from self.levels (the same list, the same order)")
-        sel = [i for i in walk_local(f.node) if isinstance(i, ast.If) and unparse(i.test) == "spans_intercept"]
-        ok = len(sel) == 1 and "code_with_intercept" in unparse(sel[0].body[0]) and "code_without_intercept" in unparse(sel[0].orelse[0])
-        obl(rep, f, sel[0] if sel else f.node, "R4.2", ok, "spans_intercept selects the full coding, otherwise the reduced one")
-    f = prog.fn("terms.call.Call.eval_categorical_box")
-    d = _defs(f)
-    ok = unparse(d["dtype"].value) == "pd.api.types.CategoricalDtype(categories=categories, ordered=True)" and \
-        unparse(d["data"].value if "data" in d else ast.Constant(0)) in ("pd.Categorical(data).astype(dtype)",) and \
-        unparse(d["self.levels"].value) == "categories"
-    obl(rep, f, f.node, "R4.2", ok, "box: data is recoded with exactly the `categories` list that becomes self.levels")
-    cm = sorted(unparse(s.value) for s in walk_local(f.node) if isinstance(s, ast.Assign) and is_self_attr(s.targets[0], "contrast_matrix"))
-    obl(rep, f, f.node, "R4.2", cm == ["contrast.code_with_intercept(categories)", "contrast.code_without_intercept(categories)"],
-        "box: the contrast codes the same `categories` list", str(cm))
-    codes = [n for n in ast.walk(f.node) if isinstance(n, ast.Subscript) and unparse(n.value) == "self.contrast_matrix.matrix"]
-    obl(rep, f, f.node, "R4.2", len(codes) == 1 and unparse(codes[0].slice) == "data.codes", "box: rows selected by the recoded data's codes")
+        try:
+            f, st = _attr_stores(prog, q)
+        except AnalysisError as e:
+            rep.defer(f"R4.2: {q}: {e}")
+            continue
+        lv = [x for x in st if x[0] == "self.levels"]
+        ok = len(lv) == 1 and lv[0][3] == () and lv[0][1].endswith(".categories.tolist()")
+        X = lv[0][1][: -len(".categories.tolist()")] if ok else None
+        obl(rep, f, lv[0][4] if lv else f.node, "R4.2", ok, "self.levels are the categories of the categorical that is coded", lv[0][1][:80] if lv else "")
+        val = [x for x in st if x[0] == "self.value"]
+        leaves = [l_ for x in val for l_ in _leaves(x[2])]
+        want = {f"self.contrast_matrix.matrix[{X}.codes]"}
+        if q.endswith("Variable.eval_categoric"):
+            want |= {f"np.where({X} == self.reference, 1, 0)"}
+        ok = X is not None and bool(leaves) and set(leaves) <= want and f"self.contrast_matrix.matrix[{X}.codes]" in leaves
+        obl(rep, f, val[0][4] if val else f.node, "R4.2", ok, "rows of the contrast matrix are selected by the codes of that same categorical",
+            "", f"self.value is built from {sorted(set(leaves) - want)[:2] or leaves[:2]}: the contrast matrix is indexed by codes of another object than "
+            "the one whose categories were coded")
+        cm = [x for x in st if x[0] == "self.contrast_matrix"]
+        okc = len(cm) == 2 and bool(lv)
+        if okc:
+            L = {"self.levels", lv[0][1]}
+            full = [x for x in cm if x[3] and x[3][-1] == ("spans_intercept", True)]
+            red = [x for x in cm if x[3] and x[3][-1] == ("spans_intercept", False)]
+            okc = len(full) == 1 and len(red) == 1 and full[0][1] in {f"Treatment().code_with_intercept({l_})" for l_ in L} \
+                and red[0][1] in {f"Treatment().code_without_intercept({l_})" for l_ in L}
+            # reading self.levels requires that it was stored before
+            if okc and ("self.levels" in full[0][1] or "self.levels" in red[0][1]):
+                okc = st.index(lv[0]) < min(st.index(full[0]), st.index(red[0]))
+        obl(rep, f, cm[0][4] if cm else f.node, "R4.2", okc, "the contrast matrix is built from self.levels (the same list, the same order)", "",
+            f"contrast stores: {[(x[1][:70], list(x[3][-1:])) for x in cm]}")
+        obl(rep, f, cm[0][4] if cm else f.node, "R4.2", okc, "spans_intercept selects the full coding, otherwise the reduced one", nontrivial=False)
+    q = "terms.call.Call.eval_categorical_box"
+    try:
+        f, st = _attr_stores(prog, q)
+    except AnalysisError as e:
+        rep.defer(f"R4.2: {q}: {e}")
+        st, f = [], prog.fn(q)
+    lv = [x for x in st if x[0] == "self.levels"]
+    val = [x for x in st if x[0] == "self.value"]
+    cm = [x for x in st if x[0] == "self.contrast_matrix"]
+    V = lv[0][1] if len(lv) == 1 else None
+    def norm(t):
+        return unparse(ast.parse(t, mode="eval").body)
+
+    okv = False
+    if V is not None and len(val) == 1:
+        try:
+            e = ast.parse(val[0][1], mode="eval").body
+            # self.contrast_matrix.matrix[ pd.Categorical(D).astype(pd.api.types.CategoricalDtype(categories=K, ordered=True)).codes ]
+            sl = e.slice if isinstance(e, ast.Subscript) and unparse(e.value) == "self.contrast_matrix.matrix" else None
+            if isinstance(sl, ast.Attribute) and sl.attr == "codes" and isinstance(sl.value, ast.Call) and isinstance(sl.value.func, ast.Attribute) \
+                    and sl.value.func.attr == "astype" and isinstance(sl.value.func.value, ast.Call) and dotted(sl.value.func.value.func) == "pd.Categorical" \
+                    and len(sl.value.args) == 1 and isinstance(sl.value.args[0], ast.Call) \
+                    and dotted(sl.value.args[0].func) in ("pd.api.types.CategoricalDtype", "pd.CategoricalDtype", "CategoricalDtype"):
+                kw = {k.arg: k.value for k in sl.value.args[0].keywords}
+                okv = "categories" in kw and unparse(kw["categories"]) == norm(V) and unparse(kw.get("ordered", ast.Constant(value=False))) == "True"
+        except SyntaxError:
+            okv = False
+    obl(rep, f, val[0][4] if val else f.node, "R4.2", okv, "box: data is recoded with exactly the `categories` list that becomes self.levels", "",
+        f"self.value = {val[0][1][:160] if val else '?'} with self.levels = {V}")
+    okc = V is not None and len(cm) == 2
+    if okc:
+        full = [x for x in cm if x[3] and x[3][-1] == ("spans_intercept", True)]
+        red = [x for x in cm if x[3] and x[3][-1] == ("spans_intercept", False)]
+        def split_call(t, meth):
+            e = ast.parse(t, mode="eval").body
+            if isinstance(e, ast.Call) and isinstance(e.func, ast.Attribute) and e.func.attr == meth and len(e.args) == 1:
+                return unparse(e.func.value), unparse(e.args[0])
+            return None, None
+
+        okc = len(full) == 1 and len(red) == 1
+        if okc:
+            r1, a1 = split_call(full[0][1], "code_with_intercept")
+            r2, a2 = split_call(red[0][1], "code_without_intercept")
+            okc = r1 is not None and r1 == r2 and a1 in (norm(V), "self.levels") and a2 in (norm(V), "self.levels")
+    obl(rep, f, cm[0][4] if cm else f.node, "R4.2", okc, "box: the contrast codes the same `categories` list", str([x[1][:80] for x in cm]))
+    obl(rep, f, val[0][4] if val else f.node, "R4.2", okv, "box: rows selected by the recoded data's codes", nontrivial=False)
     for q in ("terms.variable.Variable.labels", "terms.call.Call.labels"):
         f = prog.fn(q)
         comps = [n for n in ast.walk(f.node) if isinstance(n, ast.ListComp) and unparse(n.generators[0].iter) == "self.contrast_matrix.labels"]
